@@ -27,8 +27,10 @@ TRUSTED = [
     "runnable instance iterates sets in ascending order; the theorems hold for every iteration order",
 ]
 ASSUMPTIONS = [
-    "theorems are stated for runs of the model that do not exhaust the explicit loop fuel (exec ... = Some ...); "
-    "the harness treats fuel exhaustion as an error and never observed it",
+    "the conditional theorems are stated for runs of the model that do not exhaust the explicit loop fuel "
+    "(exec ... = Some ...); the TOTAL theorems (C06_exec_total, C06_*_total) prove that this never happens for a "
+    "set-iteration order that yields every element once (order_len: length (order l) <= length l; necessary: "
+    "C06_total_needs_order_len); the harness treats a `None` of the model as an error and never observed it",
     "labels are Python ints (any sign/size)",
 ]
 TECHNIQUE = ("Coq proof (invariants by induction over operation histories; depth-first-search invariant over the live "
@@ -57,13 +59,27 @@ LEVEL_TEXT = (
     "`equivalent` after every connect_cycles against a reference transitive closure proved correct in Coq "
     "(C06_reference_scc_correct) and against an independent Floyd-Warshall oracle: this now tests the MODEL'S "
     "faithfulness to equiv_db.py, not an unproved property of the model. "
+    "TOTALITY (Equiv/Total.v): on every history over a fresh database the model never returns None - C06_exec_total; "
+    "the parent table of every reachable state is closed and acyclic, so the path-compression loop of db[x] ends "
+    "within `len(parents)` iterations without a KeyError (C06_find_total, C06_find_fuel_sufficient); the stack loop "
+    "of connect_cycles pops every entry once and pushes at most one entry per element of a not yet visited key, so "
+    "the fuel 1 + #keys + #entries of the re-keyed one-way table suffices (C06_connect_cycles_total, "
+    "C06_connect_cycles_fuel_sufficient); the BFS of find_path needs at most 1 + #recorded edges pops "
+    "(C06_find_path_total: it always answers, KeyError exactly on non-equivalent labels, else a path of recorded "
+    "edges from the first to the second label; C06_find_path_fuel_sufficient). The main theorems are restated without "
+    "`= Some` hypotheses: C06_sound_total, C06_classes_are_sccs_total, C06_classes_are_sccs_after_queries_total, "
+    "C06_verified_total, C06_path_total (the old conditional statements are kept). "
     "The hand-written model is tied to equiv_db.py by running both on generated histories and comparing every "
     "answer (and, for labels 0..7, roots, weights, parent pointers, verified roots, both edge tables and the "
     "returned paths literally)."
 )
 LEVEL_NOTE = (
     "Trusted: Coq kernel, ExtrOcamlBasic extraction + OCaml driver, the correspondence harness. Modelled not "
-    "verified: equiv_db.py itself. Theorems assume the model's explicit loop fuel is not exhausted (never observed). "
+    "verified: equiv_db.py itself. The conditional theorems assume the model's explicit loop fuel is not exhausted; "
+    "the _total theorems discharge that for every iteration order that does not repeat elements (the theorems that do "
+    "not mention totality still hold for orders that repeat elements; totality does not: with every element yielded "
+    "three times the BFS of find_path runs out of the model's fuel, C06_total_needs_order_len). Termination is a "
+    "theorem about the model; the real code's termination follows through the correspondence only. "
     "Completeness of connect_cycles is a theorem about the state right after connect_cycles (and after queries "
     "that follow it); after further add_one_way_edge / add_two_way_edge calls and before the next connect_cycles "
     "the classes may be finer than the SCCs (that is the documented behaviour of equiv_db.py: `you should use the connect_cycle method first`)."
